@@ -110,6 +110,17 @@ class DictLikeModel(BaseModel):
     def to_dict(self, *args: Any, **kwargs: Any) -> dict[str, Any]:
         return self._data
 
+    def __copy__(self) -> "DictLikeModel":
+        """Shallow copies own their dynamic-field dict, as `dict.copy()` would.
+
+        `BaseModel.__copy__` (used by `model_copy()`) copies the private-attribute
+        table but not the `_data` dict stored in it, so the copy and the original
+        would otherwise share every dynamic key.
+        """
+        copied = super().__copy__()
+        copied._data = dict(self._data)
+        return copied
+
     def __bool__(self) -> bool:
         """Make test `if event:` pass on Event instances."""
         return True
